@@ -20,7 +20,7 @@ static inline size_t pl_size(struct pktlist *q) { return q->len; }
 static inline struct packet *pl_front(struct pktlist *q)
 {
   __CPROVER_assert(q->len > 0, "[C12.deref] front() of a non-empty list");
-  __CPROVER_assume(q->bytes >= (int64_t)q->a[q->head].bufsz);   /* ghost sum is the sum of the elements */
+  __CPROVER_assume((uint64_t)q->bytes >= (uint64_t)q->a[q->head].bufsz);   /* ghost sum is the sum of the elements */
   return &q->a[q->head];
 }
 static inline void pl_push_back(struct pktlist *q, struct packet p)
